@@ -5,6 +5,7 @@ it assumes PROVED.
 -/
 import Rrtk.Thm.C09
 import Rrtk.Thm.Lemmas.SoftScalar
+import Rrtk.Thm.Lemmas.TieVariants
 set_option linter.unusedSectionVars false
 set_option linter.unusedSimpArgs false
 namespace Rrtk.Thm.C09
